@@ -207,13 +207,14 @@ theorem cacheAll_frame (y : State) (o : CacheObj) (l : Cache.Label) (i : Slot) :
 theorem gateSend_cap (s : Server) (k : Kind) : gateSend s k = (s.cap k != .off) := by
   simp [gateSend, sendGate_diag]
 
-theorem changeSlot_frame (k : Kind) (b : Bool) (d : MSlot) :
-    (changeSlot k b d).connected = d.connected ∧ (changeSlot k b d).modern = d.modern ∧
-    (changeSlot k b d).listens = d.listens ∧ (changeSlot k b d).luris = d.luris ∧
-    (changeSlot k b d).maxHandled = d.maxHandled ∧ (changeSlot k b d).invalidated = d.invalidated ∧
-    (changeSlot k b d).starts = d.starts ∧
-    (changeSlot k b d).owed = if (d.connected && !d.owed.contains k) = true then d.owed ++ [k] else d.owed := by
+theorem changeSlot_frame (k : Kind) (b mx : Bool) (d : MSlot) :
+    (changeSlot k b mx d).connected = d.connected ∧ (changeSlot k b mx d).modern = d.modern ∧
+    (changeSlot k b mx d).listens = d.listens ∧ (changeSlot k b mx d).luris = d.luris ∧
+    (changeSlot k b mx d).maxHandled = d.maxHandled ∧ (changeSlot k b mx d).invalidated = d.invalidated ∧
+    (changeSlot k b mx d).starts = d.starts ∧
+    (changeSlot k b mx d).owed = if (d.connected && !d.owed.contains k) = true then d.owed ++ [k] else d.owed := by
   simp only [changeSlot]
+  generalize (if mx = true then addNew d.rmMixed k else d.rmMixed.filter (· != k)) = rm
   split <;> split <;> simp_all
 
 
@@ -247,7 +248,7 @@ theorem step_change (h : Rel seen y m) (f : FSet) (e : Eff) (hint : Option Who) 
           { m with ver := bumpV m.ver f, cnt := bumpC m.cnt f e }
         else
           { m with ver := bumpV m.ver f, cnt := bumpC m.cnt f e,
-                   slots := fun i => changeSlot (kindOfFSet f) ((servedMidOf m.fans (kindOfFSet f)).contains i) (m.slots i) } := by
+                   slots := fun i => changeSlot (kindOfFSet f) ((servedMidOf m.fans (kindOfFSet f)).contains i) (mixedOf e) (m.slots i) } := by
       simp only [monChange]
       rw [if_neg (by rw [h.g.cnt, heb]; decide)]
     have hver : bumpV m.ver f = (bumpVer y.srv f e).ver := by
@@ -352,12 +353,12 @@ theorem step_change (h : Rel seen y m) (f : FSet) (e : Eff) (hint : Option Who) 
         simpa using hoff
       refine ⟨srvOk_change h.srvOk f e, ⟨by show m.cap = (change y.srv f e).cap; rw [c1]; exact h.g.cap, by show _ = (change y.srv f e).ver; rw [c2]; exact hver,
           by show _ = (change y.srv f e).cnt; rw [c3]; exact hcnt, h.g.content⟩,
-        hsess _ (fun i => (changeSlot_frame _ _ _).1) (fun i => (changeSlot_frame _ _ _).2.1),
-        hlis _ (fun i => (changeSlot_frame _ _ _).2.2.1) (fun i => (changeSlot_frame _ _ _).2.2.2.1) ?_, ?_, hfan,
-        hcache _ (fun i => (changeSlot_frame _ _ _).2.2.2.2.1) (fun i => (changeSlot_frame _ _ _).2.2.2.2.2.1)
-          (fun i => (changeSlot_frame _ _ _).2.2.2.2.2.2.1), hseen, hgate⟩
+        hsess _ (fun i => (changeSlot_frame _ _ _ _).1) (fun i => (changeSlot_frame _ _ _ _).2.1),
+        hlis _ (fun i => (changeSlot_frame _ _ _ _).2.2.1) (fun i => (changeSlot_frame _ _ _ _).2.2.2.1) ?_, ?_, hfan,
+        hcache _ (fun i => (changeSlot_frame _ _ _ _).2.2.2.2.1) (fun i => (changeSlot_frame _ _ _ _).2.2.2.2.2.1)
+          (fun i => (changeSlot_frame _ _ _ _).2.2.2.2.2.2.1), hseen, hgate⟩
       · intro i hi
-        rw [(changeSlot_frame _ _ _).2.2.2.2.2.2.2]
+        rw [(changeSlot_frame _ _ _ _).2.2.2.2.2.2.2]
         have hc : (m.slots i).connected = false := by rw [h.sess.conn i]; exact hi
         simp only [hc, Bool.false_and, Bool.false_eq_true, if_false]
         exact (h.lis.idle i hi).owed
@@ -365,7 +366,7 @@ theorem step_change (h : Rel seen y m) (f : FSet) (e : Eff) (hint : Option Who) 
         show RelOwed (change y.srv f e).owed (fun k => ((change y.srv f e).ks k).inflight) _ _
         rw [this, c9]
         intro i k hk'
-        rw [(changeSlot_frame _ _ _).2.2.2.2.2.2.2] at hk'
+        rw [(changeSlot_frame _ _ _ _).2.2.2.2.2.2.2] at hk'
         rw [(cacheAll_frame _ _ _ i).1, (cacheAll_frame _ _ _ i).2.1]
         have hold : k ∈ (m.slots i).owed → (y.slots i).used = true ∧ (((y.slots i).sid, k) ∈
             (if gateSend y.srv (kindOfFSet f) = true ∧ y.srv.sessions ≠ [] then
